@@ -558,6 +558,13 @@ class Engine:
 
     def kill_range(self, o, off, n):
         cells = o.cells
+        if not cells:
+            return
+        c = cells.get(off)
+        if c is not None and c[0] == n:
+            # same slot re-written: cells never overlap, so nothing else intersects [off, off+n)
+            del cells[off]
+            return
         # split any cell overlapping [off, off+n)
         for start in range(off - 16, off + n):
             c = cells.get(start)
@@ -1206,14 +1213,10 @@ class Engine:
                 if st.model is not None:
                     falsified = z3.is_false(st.model.eval(c, model_completion=True))
                 if falsified:
-                    # the model of this path already violates the assertion: no query needed
-                    site[2] += 1
-                    self.report_violation(st, st.model, 'assert', aid, what)
-                    m2 = self.check(st, c)
-                    if m2 is None:
-                        raise PathEnd('assert-fail')
-                    st.pc.append(c)
-                    st.model = m2
+                    # the model of this path already violates the assertion: no query needed.  Earlier pending
+                    # assertions may be violated by the same model; flush reports the earliest one (program order).
+                    st.pending.append((c, aid, what))
+                    self.flush(st, hint=st.model)
                 else:
                     st.pending.append((c, aid, what))
             else:
@@ -1238,13 +1241,17 @@ class Engine:
             return None
         raise Unsupported('verif intrinsic ' + n)
 
-    def flush(self, st):
+    def flush(self, st, hint=None):
         """decide all deferred assertions of this path with one query (repeated while violations are found)"""
         while st.pending:
             pend = st.pending
-            self.stats['assert_queries'] += 1
-            neg = z3.Not(z3.And(*[c for c, _, _ in pend])) if len(pend) > 1 else z3.Not(pend[0][0])
-            m = self.check_oneshot(st, neg)
+            if hint is not None:
+                m = hint
+                hint = None
+            else:
+                self.stats['assert_queries'] += 1
+                neg = z3.Not(z3.And(*[c for c, _, _ in pend])) if len(pend) > 1 else z3.Not(pend[0][0])
+                m = self.check_oneshot(st, neg)
             if m is None:
                 for c, aid, what in pend:
                     self.assert_sites[aid][1] += 1
@@ -1305,6 +1312,20 @@ class Engine:
                                 'notes': list(st.notes)})
 
     # ------------------------------------------------------------------ calls
+    def resolve(self, name, fi):
+        """(intercept, demangled name, function or None) for a direct callee, cached"""
+        ck = (fi, name)
+        r = self.icache.get(ck)
+        if r is None:
+            mod = self.mod
+            key = mod.find_func(name, fi)
+            dem = mod.demangled(name)
+            ih = self.find_intercept(name, dem)
+            f = mod.get_func(key) if (ih is None and key is not None) else None
+            r = (ih, dem, f)
+            self.icache[ck] = r
+        return r
+
     def call(self, st, fr, dst, rt, callee, args):
         mod = self.mod
         if callee[0] == 'g':
@@ -1314,7 +1335,7 @@ class Engine:
                 if dst is not None:
                     fr.locals[dst] = r
                 return
-            key = mod.find_func(name, fr.func.file)
+            ih, dem, f = self.resolve(name, fr.func.file)
         else:
             addr = self.ev(st, fr, PTR, callee)
             if is_sym(addr):
@@ -1323,28 +1344,29 @@ class Engine:
             if key is None:
                 raise Panic('call to non-function address 0x%x' % addr)
             name = key[1] if isinstance(key, tuple) else key
-            if isinstance(key, tuple) and key[0] == 'decl':
-                key = mod.find_func(name, None)
-        dem = mod.demangled(name)
-        ih = self.find_intercept(name, dem)
+            fi = None
+            if isinstance(key, tuple) and key[0] != 'decl':
+                fi = key[0]
+            ih, dem, f = self.resolve(name, fi)
         if ih is not None:
             r = ih(st, fr, name, dem, args, rt)
             if dst is not None:
                 fr.locals[dst] = r
             return
-        if key is None:
+        if f is None:
             r = self.extern(st, fr, name, dem, args, rt)
             if dst is not None:
                 fr.locals[dst] = r
             return
-        f = mod.get_func(key)
         if f.file == 0:
             self.funcs_seen[f.dem] = self.funcs_seen.get(f.dem, 0) + 1
         nf = Frame(f, dst, st.sbrk, len(st.sbases))
-        if len(args) != len(f.params):
+        params = f.params
+        if len(args) != len(params):
             raise Unsupported('arg count mismatch calling %s' % f.dem)
-        for (pt, pn), a in zip(f.params, args):
-            nf.locals[pn] = a
+        L = nf.locals
+        for i in range(len(args)):
+            L[params[i][1]] = args[i]
         st.frames.append(nf)
         if len(st.frames) > self.limits['max_depth']:
             raise Inconclusive('call depth limit %d' % self.limits['max_depth'])
